@@ -355,7 +355,12 @@ impl<'a> Lower<'a> {
                 Stats {
                     free_frames: free,
                     free_huge: free / HUGE_FRAMES,
-                    free_trees: 0,
+                    // With one huge frame per tree, this is also the tree query
+                    free_trees: if TREE_ORDER == HUGE_ORDER {
+                        free / TREE_FRAMES
+                    } else {
+                        0
+                    },
                 }
             }
             TREE_ORDER => {
